@@ -147,6 +147,7 @@ def _run(chk):
     for k in range(n):
         c = c02.gen_case(chk.rng, chk.tier)
         c['max_size'] = linkgen.LIMIT
+        c02.safe_strategy(c)
         if linkgen.max_inrange(c['frames'], c['sr'], c['memory']) > 8:
             chk.tally('skipped: neighbour cap binding'); continue
         frames = c['frames']
